@@ -165,8 +165,25 @@ def build_T6d(tree):
     if len(lin) != 1:
         raise Unsupported('LINEAR/LINEAR_EXACT branch of apply_voi_window not found')
     node = lin[0]
+    # the width-1 LINEAR step (PS3.3 C.11.2.1.2.1, fix of C06-linear-width-one) is tested BEFORE the general branch: the
+    # general branch must be the else-arm of that test, and both arms are translated as one function
+    step = _walk_ifs(fn, lambda n: 'window_width == 1' in ast.unparse(n.test) and node in n.orelse)
+    if len(step) != 1 or len(step[0].orelse) != 1:
+        raise Unsupported('apply_voi_window: the width-1 step of the LINEAR function is no longer tested in front of the '
+                          'general LINEAR / LINEAR_EXACT branch')
+
+    class W(ast.NodeTransformer):
+        """np.where(c, a, b) on one value is the conditional expression"""
+        def visit_Call(self, n):
+            n = self.generic_visit(n)
+            if ast.unparse(n.func) in ('np.where', 'numpy.where') and len(n.args) == 3 and not n.keywords:
+                return ast.copy_location(ast.IfExp(test=n.args[0], body=n.args[1], orelse=n.args[2]), n)
+            return n
+    chain = ast.If(test=copy.deepcopy(step[0].test), body=[W().visit(copy.deepcopy(s)) for s in step[0].body],
+                   orelse=copy.deepcopy(node.body))
+    ast.fix_missing_locations(chain)
     # output_min, output_max = output_range precedes; they are parameters here
-    stmts = _clone(node.body, enums=['VOILUTFunctionValues']) + [_ret('array')]
+    stmts = _clone([chain], enums=['VOILUTFunctionValues']) + [_ret('array')]
     t1 = translate_block(stmts, 'voiWindowLinear',
                          [('array', 'rat'), ('window_center', 'rat'), ('window_width', 'rat'), ('voi_lut_function', 'str'),
                           ('output_min', 'rat'), ('output_max', 'rat'), ('invert', 'bool')], {},
@@ -198,7 +215,7 @@ def build_T6d(tree):
                                                    ('invert', 'bool')], {},
                          doc='`apply_voi_window`, SIGMOID branch: the argument of `exp`; the result is '
                              '(output_max - output_min) / (1 + exp arg) + output_min (shape checked textually by the translator)')
-    return t1 + '\n\n' + t2, span_sha(node.body + sbody)
+    return t1 + "\n\n" + t2, span_sha(step[0].body + node.body + sbody)
 
 
 def build_T6e(tree):
